@@ -113,3 +113,13 @@ package driver
 //@ func parseTagFilterRange$4
 //@   uses measurement.unitsok
 //@   ensures between: result <==> callres("Scale", 1) == unit && callres("Scale", 0) >= scaledValue && callres("Scale", 0) <= scaledValue2
+
+// ---- C07: fetchProfiles — with a base profile the source is normalised whenever -normalize is given (with -base and
+// with -diff_base alike), the base is labelled exactly for -diff_base, and the base is always negated before merging ----
+//@ func fetchProfiles nosafety
+//@   mustcall Profile.Normalize normalized: $arg0 == p && $arg1 == pbase when $res1 == nil && pbase != nil && aftercall("grabSourcesAndBases", s.Normalize)
+//@   mustcall Profile.SetLabel labelled: $arg0 == pbase when $res1 == nil && pbase != nil && aftercall("grabSourcesAndBases", s.DiffBase)
+//@   mustcall Profile.Scale negated: $arg0 == pbase when $res1 == nil && pbase != nil
+//@   mustcall combineProfiles merged: true when $res1 == nil && pbase != nil
+//@   callsite Profile.SetLabel only_diffbase: s.DiffBase && $arg0 == pbase
+//@   callsite Profile.Normalize only_normalize: s.Normalize && $arg1 == pbase
